@@ -109,7 +109,7 @@ func truthEval(e *Expr, truth []bool, idx *int) bool {
 
 // leafWorldValue picks the state value that makes the leaf evaluate to want.
 // alt selects among several suitable values where there is a choice.
-func leafWorldValue(l *Leaf, want bool, alt uint64) (key string, val int) {
+func leafWorldValue(l *Leaf, want bool, alt uint64) (key string, val int, extra map[string]int) {
 	name := joinToks(l.Operand)
 	switch l.Kind {
 	case "flag", "defeated":
@@ -129,9 +129,9 @@ func leafWorldValue(l *Leaf, want bool, alt uint64) (key string, val int) {
 			pos = (l.Op == "==") == isTrue
 		}
 		if want == pos {
-			return key, 1
+			return key, 1, nil
 		}
-		return key, 0
+		return key, 0, nil
 	case "var":
 		key = "var:" + name
 		var cands []int
@@ -148,6 +148,15 @@ func leafWorldValue(l *Leaf, want bool, alt uint64) (key string, val int) {
 			}
 		default:
 			c := Val(joinToks(l.Value))
+			if IsVarID(c) {
+				// "compare" reads such a value as a var id unless value() is used: give that var a
+				// content of its own, different from the raw number
+				other := int(alt>>8)%7 + 1
+				extra = map[string]int{"var:" + joinToks(l.Value): other}
+				if !l.Wrap {
+					c = other
+				}
+			}
 			for _, v := range []int{c - 2, c - 1, c, c + 1, c + 2} {
 				var t bool
 				switch l.Op {
@@ -169,7 +178,7 @@ func leafWorldValue(l *Leaf, want bool, alt uint64) (key string, val int) {
 				}
 			}
 		}
-		return key, cands[int(alt%uint64(len(cands)))]
+		return key, cands[int(alt%uint64(len(cands)))], extra
 	}
 	panic("leafWorldValue: " + l.Kind)
 }
@@ -243,8 +252,11 @@ func checkC02(c *C02Case) *Violation {
 		w := &World{Seed: 1, Fixed: map[string]int{"flag:FLAG_PRE": 0}}
 		for i, l := range leaves {
 			truth[i] = a&(1<<uint(i)) != 0
-			key, val := leafWorldValue(l, truth[i], mix(c.Seed, a, uint64(i)))
+			key, val, extra := leafWorldValue(l, truth[i], mix(c.Seed, a, uint64(i)))
 			w.Fixed[key] = val
+			for k, x := range extra {
+				w.Fixed[k] = x
+			}
 		}
 		idx := 0
 		want := truthEval(c.Expr, truth, &idx)
@@ -287,7 +299,11 @@ func c02Leaf(t *rapid.T, i int) *Leaf {
 		default:
 			l.Op = rapid.SampledFrom(varOps).Draw(t, "op")
 			v := rapid.IntRange(0, 9).Draw(t, "val")
-			switch rapid.IntRange(0, 5).Draw(t, "valform") {
+			switch rapid.IntRange(0, 7).Draw(t, "valform") {
+			case 6:
+				l.Value = []string{fmt.Sprintf("0x40%02X", 16*i+v)} // var-id range, one distinct id per leaf
+			case 7:
+				l.Value = []string{fmt.Sprint(0x8000 + i)}
 			case 0:
 				l.Value = []string{fmt.Sprintf("0x%X", v)}
 			case 1:
@@ -426,7 +442,7 @@ func TestC02_Enum(t *testing.T) {
 	st.SetRule(c02Rule)
 	activateKnown("C02")
 	defer flushFail("C02", "TestC02_Truth")
-	full := []leafForm{{"flag", "", nil, false}, {"flag", "!", nil, false}, {"var", "<", []string{"2"}, false}, {"defeated", "==", []string{"false"}, false}}
+	full := []leafForm{{"flag", "", nil, false}, {"flag", "!", nil, false}, {"var", "<", []string{"2"}, false}, {"defeated", "==", []string{"false"}, false}, {"var", ">=", []string{"0x4001"}, true}}
 	small := []leafForm{{"flag", "", nil, false}, {"var", "!", nil, false}}
 	type scope struct {
 		n     int
